@@ -367,21 +367,21 @@ func judgeCloseError(k *vlib.Case, lg *log, cerr error, dumps []string, label fu
 	lg.mu.Unlock()
 	lastPub := initial.String()
 	lastAttemptFailed := false
-	revertAfterFail := false
+	lastUpdate := ""
 	for _, e := range evs {
 		switch e.kind {
 		case evPubEnd:
 			lastAttemptFailed = !e.ok
-			revertAfterFail = false
 			if e.ok {
 				lastPub = e.cid
 			}
 		case evUpdCall:
-			if lastAttemptFailed && e.cid == lastPub {
-				revertAfterFail = true
-			}
+			lastUpdate = e.cid
 		}
 	}
+	// nothing is pending (the current value is the published one), the last
+	// attempt (of some other value) failed
+	revertAfterFail := lastUpdate == lastPub
 	for _, e := range evs[max(0, len(evs)-40):] {
 		nm := e.cid
 		if ci, err := cid.Decode(e.cid); err == nil {
@@ -394,7 +394,7 @@ func judgeCloseError(k *vlib.Case, lg *log, cerr error, dumps []string, label fu
 		class = "close-stuck/failed-publish-then-value-equal-to-last-published"
 	}
 	k.Fail(class, "close: with faults off Close publishes pending work and returns nil", "Close() == nil",
-		fmt.Sprintf("%v; %s; last publish attempt failed=%v, value equal to the last published one handed after that failure=%v", cerr, strings.Join(why, "; "), lastAttemptFailed, revertAfterFail))
+		fmt.Sprintf("%v; %s; last publish attempt failed=%v, most recent Update carries the last successfully published value=%v", cerr, strings.Join(why, "; "), lastAttemptFailed, revertAfterFail))
 }
 
 type upd struct {
